@@ -53,36 +53,43 @@ def feasible_x(calls, x, spin):
     return True
 
 
+def weakest_infeasible(spin, labs, calls, infeas, dom):
+    """directed search: the infeasible assignment that the implementation's own penalties (unit weight, best ancilla values)
+    punish least -- if a penalty is too small anywhere, an objective that favours that assignment exposes it"""
+    try:
+        H = build({"spin": spin, "obj": [], "calls": [dict(c, c=dict(c["c"], lam=[1, 1])) for c in calls]})
+        anc = [v for v in H.variables if v not in labs]
+        if len(anc) > 7:
+            return None
+        best, bestv = None, None
+        for b in infeas:
+            x = dict(zip(labs, b))
+            m = min(H.value(dict(x, **dict(zip(anc, a)))) for a in itertools.product(dom, repeat=len(anc)))
+            if bestv is None or m < bestv:
+                best, bestv = b, m
+        return best
+    except Exception:
+        return None
+
+
 def gen(rng, i, tier):
     for _ in range(200):
         spin = rng.random() < 0.4
         uni = rng.choice(['int', 'pool'])
         labs = G.labels(rng, uni, rng.randint(2, 4))
-        obj = []
-        for _k in range(rng.randint(1, 3)):
-            k = tuple(rng.sample(labs, min(rng.choice([1, 1, 2]), len(labs))))
-            obj.append((k, F(rng.randint(-3, 3) or 1)))
-        seen, o2 = set(), []
-        for k, v in obj:
-            ks = tuple(sorted(k, key=C.enc))
-            if ks not in seen:
-                seen.add(ks)
-                o2.append((k, v))
-        obj = o2
         dom = (1, -1) if spin else (0, 1)
-        fvals = [ev(obj, dict(zip(labs, b))) for b in itertools.product(dom, repeat=len(labs))]
-        W = max(fvals) - min(fvals) + 1
         calls = []
-        for _k in range(rng.choice([1, 1, 2])):
+        ncalls = rng.choice([1, 1, 2])
+        for _k in range(ncalls):
             if not spin and rng.random() < 0.35:
                 c = c06.gen_call(rng, labs, uni)
                 c["ops"] = [o if o["t"] == "lbl" else {"t": "lbl", "l": C.enc(rng.choice(labs))} for o in c["ops"]]
-                c["lam"] = [W.numerator, W.denominator]
                 calls.append({"t": "logic", "c": c})
             else:
                 c = (c03 if spin else c02).gen_call(rng, labs)
-                c["lam"] = [W.numerator, W.denominator]
                 c["bounds"] = None
+                if ncalls == 2 and _k == 0 and rng.random() < 0.25:
+                    c["rel"] = "ne"       # != creates its own kind of ancillas; the next constraint must get fresh names
                 calls.append({"t": "cmp", "c": c})
         # integer-valued constraint polynomials, at least one feasible and one infeasible assignment
         okp = True
@@ -95,9 +102,38 @@ def gen(rng, i, tier):
                 okp = False
         if not okp:
             continue
-        feas = [b for b in itertools.product(dom, repeat=len(labs)) if feasible_x(calls, dict(zip(labs, b)), spin)]
+        allb = list(itertools.product(dom, repeat=len(labs)))
+        feas = [b for b in allb if feasible_x(calls, dict(zip(labs, b)), spin)]
         if not feas or len(feas) == len(dom) ** len(labs):
             continue
+        # the objective: random, or (adversarial) one whose unconstrained optimum is a chosen infeasible assignment, so that
+        # a penalty that is too small at that assignment shows up as an infeasible minimiser
+        obj = []
+        if rng.random() < 0.45:
+            infeas = [b for b in allb if b not in feas]
+            bad = rng.choice(infeas)
+            if rng.random() < 0.6:
+                bad = weakest_infeasible(spin, labs, calls, infeas, dom) or bad
+            for l, v in zip(labs, bad):
+                m = rng.choice([1, 2, 3])
+                obj.append(((l,), F(-m * v) if spin else F(-m if v == 1 else m)))
+            if len(labs) >= 2 and rng.random() < 0.3:
+                obj.append((tuple(rng.sample(labs, 2)), F(rng.choice([-1, 1]))))
+        else:
+            for _k in range(rng.randint(1, 3)):
+                k = tuple(rng.sample(labs, min(rng.choice([1, 1, 2]), len(labs))))
+                obj.append((k, F(rng.randint(-3, 3) or 1)))
+        seen, o2 = set(), []
+        for k, v in obj:
+            ks = tuple(sorted(k, key=C.enc))
+            if ks not in seen:
+                seen.add(ks)
+                o2.append((k, v))
+        obj = o2
+        fvals = [ev(obj, dict(zip(labs, b))) for b in allb]
+        W = max(fvals) - min(fvals) + 1
+        for c in calls:
+            c["c"]["lam"] = [W.numerator, W.denominator]
         target = rng.randrange(4)
         deg = rng.choice([2, 2, 3]) if target in (0, 3) else None
         return {"spin": spin, "obj": G.jraw(obj), "calls": calls, "target": target, "deg": deg, "labs": [C.enc(l) for l in labs]}
